@@ -146,6 +146,10 @@ class Gmx1Adapter:
                     continue
                 out.append(Op(f"{n}.buy_glp[{t.name},{cls}]", lambda c, t=t, cls=cls: m.buy_glp(t, amount(cls, bal(t))),
                               cls in DEVIANT or t != WETH, f"{n}.buy_glp"))
+            if t == WETH:
+                # an amount given as a float (the signature allows it): whatever the market makes of it, a refusal leaves wallet and holding alone
+                out.append(Op(f"{n}.buy_glp[{t.name},float]", lambda c, t=t: m.buy_glp(t, float(bal(t)) / 4), True, f"{n}.buy_glp"))
+                out.append(Op(f"{n}.sell_glp[{t.name},float]", lambda c, t=t: m.sell_glp(t, float(m.glp_amount) / 4), True, f"{n}.sell_glp"))
             for cls in ("part", "all", "over", "0", "dust"):
                 out.append(Op(f"{n}.sell_glp[{t.name},{cls}]", lambda c, t=t, cls=cls: m.sell_glp(t, amount(cls, m.glp_amount)),
                               cls in DEVIANT or t == WAVAX, f"{n}.sell_glp"))
